@@ -305,7 +305,7 @@ fn record_line(r: &mut Rng, s: &mut String) {
 
 pub fn fuzz_text(r: &mut Rng) -> String {
     let mut s = String::new();
-    let sel = if r.chance(1, 80) { 1 } else { *r.pick(&[0usize, 2, 3, 3, 3, 3, 3, 3, 3, 3, 3, 3]) };
+    let sel = if r.chance(1, 50) { 1 } else { *r.pick(&[0usize, 2, 3, 3, 3, 3, 3, 3, 3, 3, 3, 3]) };
     match sel {
         0 => {
             // pure random chars
@@ -316,7 +316,33 @@ pub fn fuzz_text(r: &mut Rng) -> String {
         1 => {
             // very long token / line (up to ~100 KB)
             let len = *r.pick(&[1000usize, 5000, 20_000, 100_000]);
-            match r.below(5) {
+            match r.below(9) {
+                5 | 6 => {
+                    // a long run of entries that produce nothing (blank, blanks only, comment only),
+                    // outside parentheses, then optionally a record / garbage
+                    let unit = *r.pick(&["\n", " \n", ";\n", "; c\n", "\t\n", "\r\n", "\n;x\n"]);
+                    for _ in 0..len / 2 {
+                        s.push_str(unit);
+                    }
+                    match r.below(3) {
+                        0 => s.push_str("x. 300 IN A 1.2.3.4\n"),
+                        1 => s.push_str("garbage"),
+                        _ => {}
+                    }
+                }
+                7 | 8 => {
+                    // one very long label where a name is expected (owner, RDATA, $ORIGIN, relative)
+                    let l = *r.pick(&[63usize, 64, 254, 255, 256, 257, 300, 1000, 70_000]);
+                    let long = "a".repeat(l);
+                    match r.below(6) {
+                        0 => s.push_str(&format!("{long}. 300 IN A 1.2.3.4\n")),
+                        1 => s.push_str(&format!("x. 300 IN NS {long}.\n")),
+                        2 => s.push_str(&format!("$ORIGIN {long}.\nx 300 IN A 1.2.3.4\n")),
+                        3 => s.push_str(&format!("$ORIGIN e.\n{long} 300 IN A 1.2.3.4\n")),
+                        4 => s.push_str(&format!("x. 300 IN MX 10 b.{long}.c.\n")),
+                        _ => s.push_str(&format!("*.{long}. 300 IN TXT t\n")),
+                    }
+                }
                 0 => s.push_str(&"a".repeat(len)),
                 1 => {
                     s.push_str("x 300 IN TXT \"");
@@ -370,11 +396,25 @@ pub fn fuzz_text(r: &mut Rng) -> String {
     s
 }
 
+/// parse + canonical text (what a child process prints)
+pub fn parse_text_of(text: &str) -> String {
+    parse_text(&parse(text))
+}
+
+/// big inputs are parsed in a child process on a 2 MiB stack (see `isolate`): `abort` = the parser took
+/// the process down (stack exhaustion, allocation abort)
+pub fn parse_guarded(text: &str) -> String {
+    if text.len() >= 1500 {
+        crate::isolate::run_child("ztext", text)
+    } else {
+        parse_text_of(text)
+    }
+}
+
 pub fn run_fuzz(r: &mut Rng, n: usize, out: &mut Out) {
     for _ in 0..n {
         let text = fuzz_text(r);
-        let res = parse(&text);
-        out.case(&["ztext.parse", &c::hex(text.as_bytes())], &parse_text(&res));
+        out.case(&["ztext.parse", &c::hex(text.as_bytes())], &parse_guarded(&text));
     }
 }
 
